@@ -26,7 +26,7 @@ fn pat_vec<F: PrimeField>(pat: &str, n: usize, vals: &mut dyn Vals<F>, kind: &st
         .collect()
 }
 
-pub fn c10_native<G: AffineRepr>(case: &IppCase, seed: u64, model: HashMap<String, String>) -> Checks {
+pub fn c10_native<G: AffineRepr>(case: &IppCase, seed: u64, model: HashMap<String, String>, torsion: Option<Vec<G>>) -> Checks {
     let mut out: Checks = vec![];
     let n = 1usize << case.k;
     let mut rng = rand_chacha::ChaChaRng::seed_from_u64(seed ^ 0xc10);
@@ -112,6 +112,12 @@ pub fn c10_native<G: AffineRepr>(case: &IppCase, seed: u64, model: HashMap<Strin
         let pb2 = InnerProductProof::verif_from_parts(L.clone(), R.clone(), pa, pb + d);
         let mut vt = Transcript::new(b"ipp-verif");
         out.push(("shifted final scalar b rejected".into(), pb2.verify(n, &mut vt, gf.iter(), hf.iter(), &P, &Q, &Gs, &Hs).is_err()));
+        // "any other P" on a cofactor curve: P shifted by a small-order point
+        for (ti, t) in torsion.iter().flatten().enumerate() {
+            let wrongP: G = (P.into_group() + t.into_group()).into_affine();
+            let mut vt = Transcript::new(b"ipp-verif");
+            out.push((format!("P shifted by small-order point #{} rejected", ti), proof.verify(n, &mut vt, gf.iter(), hf.iter(), &wrongP, &Q, &Gs, &Hs).is_err()));
+        }
     }
     out
 }
